@@ -143,6 +143,10 @@ type docMatchTree struct {
 	// created.
 	reason string
 
+	// metaField and metaValue identify the query.Meta a node stored in
+	// docMatchTreeCache was built for. Unset for nodes that are not cached.
+	metaField, metaValue string
+
 	// mutable
 	firstDone bool
 	docID     uint32
@@ -1093,8 +1097,19 @@ func (d *indexData) newMatchTree(q query.Q, opt matchTreeOpt) (matchTree, error)
 	case *query.Meta:
 		checksum := queryMetaChecksum(s.Field, s.Value)
 		cacheKeyField := "Meta"
-		if cached, ok := d.docMatchTreeCache.Get(cacheKeyField, checksum); ok {
-			return cached, nil
+		metaValue := s.Value.String()
+		// The cache key is a hash of field + ":" + value, which is not injective
+		// (("a:b", "c") and ("a", "b:c") share a key), so only use a hit that was
+		// built for this field and value.
+		if cached, ok := d.docMatchTreeCache.Get(cacheKeyField, checksum); ok && cached.metaField == s.Field && cached.metaValue == metaValue {
+			// The cached docMatchTree is shared by all searches on this shard, but
+			// it carries an iteration cursor (firstDone, docID). Hand out a copy
+			// with a fresh cursor instead of the shared node.
+			return &docMatchTree{
+				reason:    cached.reason,
+				numDocs:   cached.numDocs,
+				predicate: cached.predicate,
+			}, nil
 		}
 
 		reposWant := make([]bool, len(d.repoMetaData))
@@ -1117,7 +1132,14 @@ func (d *indexData) newMatchTree(q query.Q, opt matchTreeOpt) (matchTree, error)
 				return reposWant[repoIdx]
 			},
 		}
-		d.docMatchTreeCache.Add(cacheKeyField, checksum, mt)
+		// Cache a separate node: the cursor of mt is advanced by this search.
+		d.docMatchTreeCache.Add(cacheKeyField, checksum, &docMatchTree{
+			reason:    mt.reason,
+			numDocs:   mt.numDocs,
+			predicate: mt.predicate,
+			metaField: s.Field,
+			metaValue: metaValue,
+		})
 		return mt, nil
 
 	case *query.Substring:
